@@ -760,12 +760,48 @@ fn mode_glob(seed: u64, maxlen: usize, nrandom: usize) {
         }
         check_glob(&mut t, &p, &s);
     }
+    // "yields an answer for every mask and every text": many stars, a literal that never matches, a long repetitive
+    // text - the answer (false, or true for the matching twin) has to come in time, not after 2^k attempts
+    let mut stuck = false;
+    // (under Miri every step costs milliseconds: small cases and a generous limit there)
+    let cases: &[(usize, usize)] = if cfg!(miri) { &[(4, 20), (6, 30)] } else { &[(4, 20), (8, 40), (12, 60), (16, 80), (24, 200), (40, 400)] };
+    let limit = std::time::Duration::from_secs(if cfg!(miri) { 300 } else { 5 });
+    for &(k, n) in cases {
+        for (tail, want) in [("*#", false), ("*", true), ("*a", true), ("b*", false)] {
+            let p: String = "*a".repeat(k) + tail;
+            let s: String = "a".repeat(n);
+            let (tx, rx) = std::sync::mpsc::channel();
+            let (p2, s2) = (p.clone(), s.clone());
+            std::thread::spawn(move || {
+                let r = catch_unwind(AssertUnwindSafe(|| match_wildcard(&p2, &s2)));
+                let _ = tx.send(r);
+            });
+            t.seen(format!("terminates:{}x{}", k, n));
+            match rx.recv_timeout(limit) {
+                Ok(Ok(g)) if g == want => {}
+                Ok(Ok(g)) => t.mismatch("glob:wrong:many-stars".into(), format!("{} ~ {}", p, s), g.to_string(), want.to_string()),
+                Ok(Err(_)) => t.mismatch("glob:panic:many-stars".into(), format!("{} ~ {}", p, s), "PANIC".into(), want.to_string()),
+                Err(_) => {
+                    t.mismatch("glob:no-answer".into(), format!("{} ~ {}", p, s), "no answer within 5 s".into(), want.to_string());
+                    stuck = true;
+                    break;
+                }
+            }
+        }
+        if stuck {
+            break;
+        }
+    }
     emit(
         "glob",
         &t,
         true,
         &format!(",\"exhaustive_pairs_ascii\":{},\"exhaustive_pairs_utf8\":{},\"maxlen\":{}", n_ascii, n_utf, maxlen),
     );
+    if stuck {
+        // a matcher thread is still spinning: leave without waiting for it
+        std::process::exit(0);
+    }
 }
 
 // ---------------------------------------------------------------- mask completion
